@@ -1020,6 +1020,7 @@ def instruction(ctx):
             ctx_before_comma = ctx.save()
 
         ctx_opening_bracket = ctx.save()
+        ctx_opening_bracket.skip_whitespace()
         if opening_bracket(ctx, maybe=True):
             oper = code(ctx, break_on_closing_bracket=True)
             oper.ctx = ctx_opening_bracket
